@@ -16,9 +16,9 @@ static int run(cocls::subscribtion_type t, std::size_t maxlen, std::vector<int> 
     if (awt.await_ready() || !awt.await_suspend(&wake, nullptr)) return 100;   // parked
     pub.publish(batch.begin(), batch.end());       // wakes the subscriber
     bool a = awt.await_resume();
-    int v1 = sub.value();
+    int v1 = a ? sub.value() : -1;
     bool b = sub.next_ready();
-    int v2 = sub.value();
+    int v2 = b ? sub.value() : -1;
     printf("mode=%d: %d(%d) then %d(%d) position=%zu\n", (int) t, v1, a, v2, b, sub.position());
     return a && b && v1 == v2;
 }
